@@ -142,6 +142,17 @@ func RunCoh(c *core.Ctx) {
 			}
 		}
 	}
+	// Go type of every message / enum of every analysed package, by source set and full name: a dependency declared
+	// in another generated package must be bound to exactly that package's Go type (a same-named local type is not it)
+	goTypeOf := map[string]string{}
+	for _, g := range sources(c) {
+		for _, m := range g.Msgs {
+			goTypeOf[g.Source+"|"+string(m.Desc.FullName())] = "*" + tq(m.Named)
+		}
+		for _, e := range g.Enums {
+			goTypeOf[g.Source+"|"+string(e.Desc.FullName())] = tq(e.Named)
+		}
+	}
 	for _, g := range sources(c) {
 		src := g.Source
 		info := g.Info
@@ -279,6 +290,8 @@ func RunCoh(c *core.Ctx) {
 								}
 							} else if t, ok := entryType(goT.Elts[k]); !ok || t == nil || !sameTail(tq(t), string(d.Name())) {
 								bad2 = append(bad2, fmt.Sprintf("dependency %d (%s) points to entry %d = %s", i, d.FullName(), k, types.ExprString(goT.Elts[k])))
+							} else if want, known := goTypeOf[src+"|"+string(d.FullName())]; known && tq(t) != want {
+								bad2 = append(bad2, fmt.Sprintf("dependency %d (%s) points to entry %d = %s, which is not the Go type of that enum (%s)", i, d.FullName(), k, tq(t), want))
 							}
 						case protoreflect.MessageDescriptor:
 							if idx := indexMsg(msgs, d); idx >= 0 {
@@ -287,6 +300,8 @@ func RunCoh(c *core.Ctx) {
 								}
 							} else if t, ok := entryType(goT.Elts[k]); !ok || t == nil || !sameTail(tq(t), string(d.Name())) {
 								bad2 = append(bad2, fmt.Sprintf("dependency %d (%s) points to entry %d = %s", i, d.FullName(), k, types.ExprString(goT.Elts[k])))
+							} else if want, known := goTypeOf[src+"|"+string(d.FullName())]; known && tq(t) != want {
+								bad2 = append(bad2, fmt.Sprintf("dependency %d (%s) points to entry %d = %s, which is not the Go type of that message (%s)", i, d.FullName(), k, tq(t), want))
 							}
 						}
 					}
